@@ -171,7 +171,12 @@ class Section(Entity):
 
         prop = Property.create_new(self.file, self, properties,
                                    name, dtype, shape, oid)
-        prop.values = vals
+        try:
+            prop.values = vals
+        except Exception:
+            # do not leave a Property with fill values behind
+            del properties[name]
+            raise
 
         return prop
 
